@@ -92,9 +92,18 @@ def explore(run, n_hist, rec_prefix, weights=None, seed_off=0, oracle=True):
                          + (":" + out[1] if out[0] == "Raised" else ""))
                 key = None
                 if "hash" in fp:
+                    # (the columns are part of what is compared: the same
+                    # settings over other data or without result columns is
+                    # another state)
+                    import hashlib
+                    dig = hashlib.md5()
+                    for c in sorted(idnt.columns):
+                        dig.update(c.encode())
+                        dig.update(np.ascontiguousarray(idnt[c]).tobytes())
                     key = common.sha([fp["hash"], canon(stored_settings(idnt)),
                                       canon(fp.get("preprocessing")),
-                                      canon(fp.get("preprocessing_options"))])
+                                      canon(fp.get("preprocessing_options")),
+                                      dig.hexdigest()])
                 if oracle and key is not None and key not in seen:
                     seen.add(key)
                     why = compare_with_fresh(idnt, cols)
